@@ -569,7 +569,7 @@ func c19recursion(p *core.Prog, f *ssa.Function) (bool, string) {
 		}
 	})
 	if rec == nil {
-		return false, "later descriptors are never consulted: ties of the first key are not broken"
+		return c19iteration(p, f)
 	}
 	// args: same items, same descriptors, index+1
 	step, ok := rec.Call.Args[3].(*ssa.BinOp)
@@ -626,9 +626,9 @@ func c19recursion(p *core.Prog, f *ssa.Function) (bool, string) {
 	return true, "next descriptor consulted exactly on result == 0 && hasNext; its verdict returned"
 }
 
-func c19idxPlus1(v ssa.Value, idx *ssa.Parameter) bool {
+func c19idxPlus1(v ssa.Value, idx ssa.Value) bool {
 	b, ok := core.Resolve(v).(*ssa.BinOp)
-	return ok && b.Op == token.ADD && b.X == ssa.Value(idx) && core.IsIntConst(b.Y, 1)
+	return ok && b.Op == token.ADD && b.X == idx && core.IsIntConst(b.Y, 1)
 }
 
 func c19lenOf(v ssa.Value, list *ssa.Parameter) bool {
@@ -637,10 +637,84 @@ func c19lenOf(v ssa.Value, list *ssa.Parameter) bool {
 }
 
 // c19isHasNext: v is (idx+1) < len(list).
-func c19isHasNext(v ssa.Value, list, idx *ssa.Parameter) bool {
+func c19isHasNext(v ssa.Value, list *ssa.Parameter, idx ssa.Value) bool {
 	b, ok := core.Resolve(v).(*ssa.BinOp)
 	if !ok {
 		return false
 	}
 	return b.Op == token.LSS && c19idxPlus1(b.X, idx) && c19lenOf(b.Y, list) || b.Op == token.GTR && c19idxPlus1(b.Y, idx) && c19lenOf(b.X, list)
+}
+
+
+// c19iteration: the descriptor comparator written as a loop instead of a recursion - the descriptor index is advanced by
+// one exactly on the edge "tie on this descriptor and there is a next one", every other exit returns this descriptor's
+// verdict.
+func c19iteration(p *core.Prog, f *ssa.Function) (bool, string) {
+	var list, idxPrm *ssa.Parameter
+	for _, prm := range f.Params {
+		if _, isSl := prm.Type().Underlying().(*types.Slice); isSl && list == nil {
+			list = prm
+		}
+		if core.IsInteger(prm.Type()) && idxPrm == nil {
+			idxPrm = prm
+		}
+	}
+	if list == nil || idxPrm == nil {
+		return false, "later descriptors are never consulted: ties of the first key are not broken"
+	}
+	var phi *ssa.Phi
+	back := -1
+	core.Instrs(f, func(ins ssa.Instruction) {
+		ph, ok := ins.(*ssa.Phi)
+		if !ok || len(ph.Edges) != 2 {
+			return
+		}
+		for i, e := range ph.Edges {
+			if core.Resolve(ph.Edges[1-i]) == ssa.Value(idxPrm) && c19idxPlus1(e, ph) {
+				phi, back = ph, i
+			}
+		}
+	})
+	if phi == nil {
+		return false, "later descriptors are never consulted: ties of the first key are not broken"
+	}
+	// the descriptor compared in an iteration is descriptors[index]
+	uses := false
+	core.Instrs(f, func(ins ssa.Instruction) {
+		if ia, ok := ins.(*ssa.IndexAddr); ok && core.Resolve(ia.X) == ssa.Value(list) && ia.Index == ssa.Value(phi) {
+			uses = true
+		}
+	})
+	if !uses {
+		return false, "the loop does not compare by descriptors[index]"
+	}
+	pred := phi.Block().Preds[back]
+	tie, hasNext := false, false
+	for _, cnd := range core.EdgeFacts(pred) {
+		if m, ok := core.AsCmp(cnd); ok && m.Op == token.EQL && core.IsIntConst(m.Y, 0) {
+			tie = true
+		}
+		n := core.Normalize(cnd)
+		if call, ok := n.V.(*ssa.Call); ok && n.True {
+			if g := core.Callee(&call.Call); g != nil && len(call.Call.Args) == 2 && core.Resolve(call.Call.Args[0]) == ssa.Value(list) && call.Call.Args[1] == ssa.Value(phi) && len(g.Params) == 2 {
+				core.Instrs(g, func(ins ssa.Instruction) {
+					if r, isR := ins.(*ssa.Return); isR && c19isHasNext(core.RetVals(r)[0], g.Params[0], g.Params[1]) {
+						hasNext = true
+					}
+				})
+			}
+		}
+		if n.True && c19isHasNext(n.V, list, phi) {
+			hasNext = true
+		}
+		if m, ok := core.AsCmp(cnd); ok {
+			if m.Op == token.LSS && c19idxPlus1(m.X, phi) && c19lenOf(m.Y, list) || m.Op == token.GTR && c19idxPlus1(m.Y, phi) && c19lenOf(m.X, list) {
+				hasNext = true
+			}
+		}
+	}
+	if !tie || !hasNext {
+		return false, fmt.Sprintf("the next descriptor is consulted without result == 0 (tie=%v) && hasNext (%v)", tie, hasNext)
+	}
+	return true, "loop form: index advanced by one exactly on result == 0 && hasNext; every other exit returns this descriptor's verdict"
 }
